@@ -38,6 +38,9 @@ def dc_add_constraints(M, degree, scheme):
     ocp.subject_to(e4 <= 0.0)
     e5 = ufun("cr", 1, [x, u, t])
     ocp.subject_to(e5 <= 3.0, grid="integrator_roots")
+    ocp.subject_to(ufun("co", 1, [x, ocp.next(x)]) <= 5.0)
+    ocp.subject_to(ufun("cp", 1, [x, ocp.prev(x), u]) <= 6.0)
+    ocp.subject_to(ufun("cm", 1, [ocp.next(x), x, ocp.prev(x)]) <= 7.0)
     QUAL = "direct_collocation:DirectCollocation.add_constraints"
     tau = [ca.num(float(v)) for v in meth.tau]
     d = degree
@@ -124,6 +127,10 @@ def dc_add_constraints(M, degree, scheme):
                 rows.append((("integrator", i), "le", ufun("c2", 1, [Xc[i][:, 0], env_k["u"], t_i, env_k["pc"]]) - 2.0, 1))
         if not ((k == 0) & ~f1):
             rows.append((("control",), "le", ufun("c1", 1, [pre.Xf(k), env_k["u"], tk, env_k["pc"], env_k["vc"], pre.Pcpf(k), pre.Vcpf(k), env_k["p"], env_k["v"]]) - 1.0, 1))
+        rows.append((("next",), "le", ufun("co", 1, [pre.Xf(k), pre.Xf(unwrap_int(k + 1))]) - 5.0, 1))
+        if not (k == 0):
+            rows.append((("prev",), "le", ufun("cp", 1, [pre.Xf(k), pre.Xf(unwrap_int(k - 1)), env_k["u"]]) - 6.0, 1))
+            rows.append((("mixed",), "le", ufun("cm", 1, [pre.Xf(unwrap_int(k + 1)), pre.Xf(k), pre.Xf(unwrap_int(k - 1))]) - 7.0, 1))
         return rows
 
     loops.SPECS.clear()
@@ -143,6 +150,7 @@ def dc_add_constraints(M, degree, scheme):
         expected.append((("control", "final"), "le", ufun("c1", 1, [pre.Xf(N), dN["u"], tN, dN["pc"], dN["vc"], pre.Pcpf(N), pre.Vcpf(N), dN["p"], dN["v"]]) - 1.0, 1))
     if l2:
         expected.append((("integrator", "final"), "le", ufun("c2", 1, [pre.Xf(N), dN["u"], tN, dN["pc"]]) - 2.0, 1))
+    expected.append((("prev", "final"), "le", ufun("cp", 1, [pre.Xf(N), pre.Xf(unwrap_int(N - 1)), dN["u"]]) - 6.0, 1))
     contract.EmissionChecker(opti).compare(QUAL + ":ensures:outside-loops", emitted, expected)
     c.prove(QUAL + ":ensures:len-xk", vc_len(meth.xk) == N * M)
 
